@@ -22,7 +22,7 @@ def run(ctx):
             bad.setdefault(ln, o)
     n_release = sum(1 for n in walk_no_nested(fi.node) if isinstance(n, ast.Call) and sem._sem_call(n, "release") is n)
     n_release += sum(1 for n in walk_no_nested(fi.node) if isinstance(n, ast.Attribute) and n.attr == "release" and isinstance(n.value, ast.Attribute)
-                     and n.value.attr == sem.info["sem"] and not isinstance(getattr(n, "_parent", None), ast.Call))
+                     and n.value.attr == sem.info["sem"] and not (isinstance(getattr(n, "_parent", None), ast.Call) and n._parent.func is n))
     if bad:
         for ln, o in sorted(bad.items()):
             r1.violation(construct, f"release() at line {ln} is reachable on a path that never acquired a core "
